@@ -30,6 +30,12 @@ func newCountAggregationKvIter(ctx *sql.Context, srcIter prolly.MapIter, sch sch
 	var idx int
 	var isKeyRef bool
 
+	if schema.IsKeyless(sch) {
+		// keyless rows are stored as (hash id) -> (cardinality, fields...): neither the field
+		// positions nor one-count-per-entry apply, so leave these to the row executor
+		return nil, false, nil
+	}
+
 	switch e := e.(type) {
 	case *expression.Literal:
 		nullable = false
